@@ -407,5 +407,283 @@ func extractC17(c *ctx) (Facts, error) {
 		args, ok := c.c17CallArgs(fd, ".AddNoPublisherHandler")
 		facts["requeuer_handler_registration"] = ok && len(args) == 4 && args[1] == "config.SubscribeTopic" && args[2] == "config.Subscriber" && strings.HasSuffix(args[3], ".handler")
 	}
+	// ---- deep-embedded bodies (WmModel/Gen/RelayBody.lean)
+	rq, uw, fw := c.c17RequeuerBody(), c.c17UnwrapBody(), c.c17ForwardBody()
+	unknown := 0
+	for _, l := range append(append(append([]string{}, rq...), uw...), fw...) {
+		if strings.Contains(l, ".unknown ") {
+			unknown++
+		}
+	}
+	facts["body_unknown_statements"] = unknown
+	facts["body_statement_counts"] = []int{len(rq), len(uw), len(fw)}
+	var sb strings.Builder
+	sb.WriteString("/- GENERATED by harness/cmd/extract from " + c17Requeuer + ", " + c17Forwarder + ", " + c17Envelope + " on every run – do not edit -/\n")
+	sb.WriteString("import WmModel.GoRelay\nnamespace Wm.GoRelay.Gen\nopen Wm.GoRelay\n\n")
+	sb.WriteString("def requeuerBody : List RqStmt := [\n  " + strings.Join(rq, ",\n  ") + "\n]\n\n")
+	sb.WriteString("def unwrapBody : List UwStmt := [\n  " + strings.Join(uw, ",\n  ") + "\n]\n\n")
+	sb.WriteString("def forwardBody : List FwStmt := [\n  " + strings.Join(fw, ",\n  ") + "\n]\n\n")
+	sb.WriteString("end Wm.GoRelay.Gen\n")
+	if err := c.writeLean("RelayBody.lean", sb.String()); err != nil {
+		return facts, err
+	}
 	return facts, firstErr
+}
+
+func (c *ctx) c17Unknown(n ast.Node) string { return ".unknown " + leanStr(c.src(n)) }
+
+// isErrReturn: `return <zero values…>, <non-nil error expression>` with nres results.
+func (c *ctx) c17IsErrReturn(st ast.Stmt, nres int) bool {
+	rs, ok := st.(*ast.ReturnStmt)
+	if !ok || len(rs.Results) != nres {
+		return false
+	}
+	for i := 0; i < nres-1; i++ {
+		z := c.src(rs.Results[i])
+		if z != `""` && z != "nil" {
+			return false
+		}
+	}
+	return c.src(rs.Results[nres-1]) != "nil"
+}
+
+// (*Requeuer).handler
+func (c *ctx) c17RequeuerBody() []string {
+	fd, err := c.fn(c17Requeuer, "Requeuer", "handler")
+	if err != nil {
+		return []string{".unknown " + leanStr(err.Error())}
+	}
+	f, _ := c.file(c17Requeuer)
+	consts := c13StringConsts(f)
+	recv := c13RecvName(fd)
+	p := c13FieldNames(fd.Type.Params)
+	if len(p) != 1 {
+		return []string{".unknown " + leanStr("handler signature")}
+	}
+	msg := p[0]
+	topicVar, errVar, strVar, numVar := "", "", "", ""
+	key := func(e ast.Expr) (string, bool) {
+		if id, ok := e.(*ast.Ident); ok {
+			v, ok := consts[id.Name]
+			return v, ok
+		}
+		return "", false
+	}
+	var out []string
+	for _, st := range fd.Body.List {
+		u := c.c17Unknown(st)
+		switch s := st.(type) {
+		case *ast.IfStmt:
+			cond := c.src(s.Cond)
+			switch {
+			case s.Init == nil && s.Else == nil && cond == recv+".config.Delay > 0" && len(s.Body.List) == 1:
+				// select { case <-msg.Context().Done(): return msg.Context().Err(); case <-time.After(r.config.Delay): }
+				sel, ok := s.Body.List[0].(*ast.SelectStmt)
+				good := ok && len(sel.Body.List) == 2
+				if good {
+					seenDone, seenTimer := false, false
+					for _, cl := range sel.Body.List {
+						cc := cl.(*ast.CommClause)
+						if cc.Comm == nil {
+							good = false
+							continue
+						}
+						switch c.src(cc.Comm) {
+						case "<-" + msg + ".Context().Done()":
+							seenDone = len(cc.Body) == 1 && c.src(cc.Body[0]) == "return "+msg+".Context().Err()"
+						case "<-time.After(" + recv + ".config.Delay)":
+							seenTimer = len(cc.Body) == 0
+						default:
+							good = false
+						}
+					}
+					good = good && seenDone && seenTimer
+				}
+				if good {
+					u = ".delayWait"
+				}
+			case s.Init == nil && s.Else == nil && errVar != "" && cond == errVar+" != nil" && len(s.Body.List) == 1:
+				b := c.src(s.Body.List[0])
+				if b == "return "+errVar {
+					u = ".ifErrReturn"
+				} else if numVar != "" && b == numVar+" = 0" {
+					u = ".ifErrZero"
+				}
+			}
+		case *ast.AssignStmt:
+			l := make([]string, len(s.Lhs))
+			for i, x := range s.Lhs {
+				l[i] = c.src(x)
+			}
+			r := ""
+			if len(s.Rhs) == 1 {
+				r = c.src(s.Rhs[0])
+			}
+			switch {
+			case s.Tok == token.DEFINE && len(l) == 2 && r == recv+".config.GeneratePublishTopic(GeneratePublishTopicParams{Message: "+msg+"})":
+				topicVar, errVar = l[0], l[1]
+				u = ".genTopic"
+			case s.Tok == token.DEFINE && len(l) == 1:
+				if ce, ok := s.Rhs[0].(*ast.CallExpr); ok && c.src(ce.Fun) == msg+".Metadata.Get" && len(ce.Args) == 1 {
+					if k, ok := key(ce.Args[0]); ok {
+						strVar = l[0]
+						u = ".getRetries " + leanStr(k)
+					}
+				}
+			case s.Tok == token.DEFINE && len(l) == 2 && strVar != "" && r == "strconv.Atoi("+strVar+")" && l[1] == errVar:
+				numVar = l[0]
+				u = ".atoi"
+			case s.Tok == token.ASSIGN && len(l) == 1 && l[0] == errVar && topicVar != "" && r == recv+".config.Publisher.Publish("+topicVar+", "+msg+")":
+				u = ".publish"
+			}
+		case *ast.IncDecStmt:
+			if s.Tok == token.INC && numVar != "" && c.src(s.X) == numVar {
+				u = ".inc"
+			}
+		case *ast.ExprStmt:
+			if ce, ok := s.X.(*ast.CallExpr); ok && c.src(ce.Fun) == msg+".Metadata.Set" && len(ce.Args) == 2 && numVar != "" &&
+				c.src(ce.Args[1]) == "strconv.Itoa("+numVar+")" {
+				if k, ok := key(ce.Args[0]); ok {
+					u = ".setRetries " + leanStr(k)
+				}
+			}
+		case *ast.ReturnStmt:
+			if len(s.Results) == 1 && c.src(s.Results[0]) == "nil" {
+				u = ".retNil"
+			}
+		}
+		out = append(out, u)
+	}
+	return out
+}
+
+// unwrapMessageFromEnvelope
+func (c *ctx) c17UnwrapBody() []string {
+	fd, err := c.fn(c17Envelope, "", "unwrapMessageFromEnvelope")
+	if err != nil {
+		return []string{".unknown " + leanStr(err.Error())}
+	}
+	p := c13FieldNames(fd.Type.Params)
+	if len(p) != 1 || len(c13FieldNames(fd.Type.Results)) != 3 {
+		return []string{".unknown " + leanStr("unwrapMessageFromEnvelope signature")}
+	}
+	msg := p[0]
+	envVar, wmVar := "", ""
+	var out []string
+	for _, st := range fd.Body.List {
+		u := c.c17Unknown(st)
+		switch s := st.(type) {
+		case *ast.AssignStmt:
+			if len(s.Lhs) != 1 || len(s.Rhs) != 1 {
+				break
+			}
+			l, r := c.src(s.Lhs[0]), c.src(s.Rhs[0])
+			switch {
+			case s.Tok == token.DEFINE && r == "messageEnvelope{}":
+				envVar = l
+				u = ".declEnvelope"
+			case s.Tok == token.DEFINE && envVar != "" && r == "message.NewMessage("+envVar+".UUID, "+envVar+".Payload)":
+				wmVar = l
+				u = ".newMessage"
+			case s.Tok == token.ASSIGN && wmVar != "" && l == wmVar+".Metadata" && r == envVar+".Metadata":
+				u = ".setMetadata"
+			}
+		case *ast.IfStmt:
+			if s.Init == nil || s.Else != nil || len(s.Body.List) != 1 || !c.c17IsErrReturn(s.Body.List[0], 3) || envVar == "" {
+				break
+			}
+			as, ok := s.Init.(*ast.AssignStmt)
+			if !ok || len(as.Lhs) != 1 || len(as.Rhs) != 1 || c.src(s.Cond) != c.src(as.Lhs[0])+" != nil" {
+				break
+			}
+			switch c.src(as.Rhs[0]) {
+			case "json.Unmarshal(" + msg + ".Payload, &" + envVar + ")":
+				u = ".unmarshalIfErrRet"
+			case envVar + ".validate()":
+				u = ".validateIfErrRet"
+			}
+		case *ast.ExprStmt:
+			if wmVar != "" && c.src(s.X) == wmVar+".SetContext("+msg+".Context())" {
+				u = ".setContext"
+			}
+		case *ast.ReturnStmt:
+			if len(s.Results) == 3 && envVar != "" && wmVar != "" && c.src(s.Results[0]) == envVar+".DestinationTopic" &&
+				c.src(s.Results[1]) == wmVar && c.src(s.Results[2]) == "nil" {
+				u = ".retOk"
+			}
+		}
+		out = append(out, u)
+	}
+	return out
+}
+
+// (*Forwarder).forwardMessage
+func (c *ctx) c17ForwardBody() []string {
+	fd, err := c.fn(c17Forwarder, "Forwarder", "forwardMessage")
+	if err != nil {
+		return []string{".unknown " + leanStr(err.Error())}
+	}
+	p := c13FieldNames(fd.Type.Params)
+	if len(p) != 1 {
+		return []string{".unknown " + leanStr("forwardMessage signature")}
+	}
+	msg, recv := p[0], c13RecvName(fd)
+	topicVar, umVar, errVar := "", "", ""
+	isLog := func(st ast.Stmt) bool {
+		es, ok := st.(*ast.ExprStmt)
+		if !ok {
+			return false
+		}
+		ce, ok := es.X.(*ast.CallExpr)
+		return ok && strings.HasPrefix(c.src(ce.Fun), recv+".logger.")
+	}
+	var out []string
+	for _, st := range fd.Body.List {
+		u := c.c17Unknown(st)
+		switch s := st.(type) {
+		case *ast.AssignStmt:
+			if s.Tok == token.DEFINE && len(s.Lhs) == 3 && len(s.Rhs) == 1 && c.src(s.Rhs[0]) == "unwrapMessageFromEnvelope("+msg+")" {
+				topicVar, umVar, errVar = c.src(s.Lhs[0]), c.src(s.Lhs[1]), c.src(s.Lhs[2])
+				u = ".unwrap"
+			}
+		case *ast.IfStmt:
+			if s.Else != nil {
+				break
+			}
+			if s.Init == nil && errVar != "" && c.src(s.Cond) == errVar+" != nil" {
+				var body []string
+				for _, b := range s.Body.List {
+					if isLog(b) {
+						continue // logging has no effect on publishing or settlement
+					}
+					bu := c.c17Unknown(b)
+					switch bs := b.(type) {
+					case *ast.IfStmt:
+						if bs.Init == nil && bs.Else == nil && c.src(bs.Cond) == recv+".config.AckWhenCannotUnwrap" && len(bs.Body.List) == 1 &&
+							c.src(bs.Body.List[0]) == "return nil" {
+							bu = ".ifAckFlagRetNil"
+						}
+					case *ast.ReturnStmt:
+						if c.c17IsErrReturn(bs, 1) {
+							bu = ".retErr"
+						}
+					}
+					body = append(body, bu)
+				}
+				u = ".ifErr [\n    " + strings.Join(body, ",\n    ") + "\n  ]"
+			} else if s.Init != nil && topicVar != "" {
+				as, ok := s.Init.(*ast.AssignStmt)
+				if ok && len(as.Lhs) == 1 && len(as.Rhs) == 1 && c.src(as.Rhs[0]) == recv+".publisher.Publish("+topicVar+", "+umVar+")" &&
+					c.src(s.Cond) == c.src(as.Lhs[0])+" != nil" && len(s.Body.List) == 1 && c.c17IsErrReturn(s.Body.List[0], 1) {
+					u = ".ifPublishErrRetErr"
+				}
+			}
+		case *ast.ReturnStmt:
+			if len(s.Results) == 1 && c.src(s.Results[0]) == "nil" {
+				u = ".retNil"
+			}
+		}
+		out = append(out, u)
+	}
+	return out
 }
